@@ -249,6 +249,15 @@ pub fn multi_binary_streams(max_len: usize) -> Vec<(String, Vec<Wire>)> {
             out.push((format!("one list response with binaries {s:?}"), vec![Wire::List(frames), Wire::Single(AFrame::new(&[("a", "after")]))]));
         }
     }
+    // round 6: a binary part that is the FIRST (and only) component of its response / frame - no field line
+    // in front of it marks the frame as begun (code that moves a large payload out of the receive buffer
+    // must still know that a response is in progress)
+    let bare = |n: usize, tag: usize| AFrame { fields: vec![], binary: Some((0..n).map(|i| ((i * 7 + tag) % 253) as u8).collect()) };
+    for &z in &[10usize, 4090, 4097, 5000, 9000, 17000, 70_000] {
+        out.push((format!("response that is one bare binary of {z}"), vec![Wire::Single(bare(z, 1))]));
+        out.push((format!("bare binary of {z} followed by a response"), vec![Wire::Single(bare(z, 2)), Wire::Single(AFrame::new(&[("a", "after")]))]));
+    }
+    out.push(("list of bare binaries [5000, 9000, 10]".to_string(), vec![Wire::List(vec![bare(5000, 3), bare(9000, 4), bare(10, 5)]), Wire::Single(AFrame::new(&[("a", "after")]))]));
     out
 }
 
